@@ -778,9 +778,106 @@ func origin(v ssa.Value) ssa.Value {
 }
 
 // sameOrigin: the two values are the same value up to helper boundaries and single-assignment locals.
+// A parameter of a helper with several call sites is identified with a value of a calling function when
+// every call site inside that function passes this value.
 func sameOrigin(a, b ssa.Value) bool {
 	if a == nil || b == nil {
 		return a == b
 	}
-	return a == b || origin(a) == origin(b) || sameVal(a, b)
+	if a == b {
+		return true
+	}
+	oa, ob := origin(a), origin(b)
+	if oa == ob || sameVal(a, b) {
+		return true
+	}
+	return paramIs(oa, ob) || paramIs(ob, oa)
+}
+
+// paramIs: p is a parameter of a private helper and every call site of that helper within the
+// function of v (and the helpers that function calls) passes v for it.
+func paramIs(p, v ssa.Value) bool {
+	prm, ok := p.(*ssa.Parameter)
+	if !ok || curSites == nil {
+		return false
+	}
+	h := prm.Parent()
+	fv := valFunc(v)
+	if fv == nil {
+		if q, ok := v.(*ssa.Parameter); ok {
+			fv = q.Parent()
+		}
+		if q, ok := v.(*ssa.FreeVar); ok {
+			fv = q.Parent()
+		}
+	}
+	if h == nil || fv == nil || h == fv || !isPrivateHelper(h) || unitExclude[h] {
+		return false
+	}
+	idx := -1
+	for k, q := range h.Params {
+		if q == prm {
+			idx = k
+		}
+	}
+	n := 0
+	for _, s := range curSites.sites[h] {
+		in := false
+		for _, root := range unitRoots(s.Parent()) {
+			if root == fv || s.Parent() == fv {
+				in = true
+			}
+		}
+		if !in {
+			continue
+		}
+		args := s.(ssa.CallInstruction).Common().Args
+		if idx < 0 || idx >= len(args) {
+			return false
+		}
+		oa := origin(args[idx])
+		if !(oa == origin(v) || paramIs(oa, v)) {
+			return false
+		}
+		n++
+	}
+	return n > 0
+}
+
+// originsAll: the possible origins of v over all call sites when v is (or leads to) a parameter of a
+// private helper with several call sites; otherwise the single origin.
+func originsAll(v ssa.Value) []ssa.Value {
+	var out []ssa.Value
+	seen := map[ssa.Value]bool{}
+	var rec func(v ssa.Value, d int)
+	rec = func(v ssa.Value, d int) {
+		o := origin(v)
+		if seen[o] {
+			return
+		}
+		seen[o] = true
+		prm, ok := o.(*ssa.Parameter)
+		if ok && d < unitDepth && curSites != nil && isPrivateHelper(prm.Parent()) && !unitExclude[prm.Parent()] {
+			h := prm.Parent()
+			idx := -1
+			for k, q := range h.Params {
+				if q == prm {
+					idx = k
+				}
+			}
+			sites := curSites.sites[h]
+			if idx >= 0 && len(sites) > 0 {
+				for _, s := range sites {
+					args := s.(ssa.CallInstruction).Common().Args
+					if idx < len(args) {
+						rec(args[idx], d+1)
+					}
+				}
+				return
+			}
+		}
+		out = append(out, o)
+	}
+	rec(v, 0)
+	return out
 }
